@@ -85,14 +85,27 @@ def isSleep : Ev → Bool
 /-- the log without the `powercycle_delay` waits (C13 says nothing about them) -/
 def noSleep (t : List Ev) : List Ev := t.filter fun e => !isSleep e
 
-/-- the clean-up a begin-callback that RAISED does itself before the exception leaves it: the
-    `finally:` of `PowerControl._init_machine` around a failing `poweron()`.  Part of the failing
-    set-up step — no other step sees it. -/
-def ownCleanup (f : Faults) (ini : List Ev) : List Ev := teardown f (ini.filter (raises f))
+/-- the begin-callbacks a session reaches, split by unit (`units`: the steps that are one context
+    manager for `Machine.__enter__`): those of the units that STARTED (every begin-callback
+    returned), and those of the unit that failed, up to the callback that raised -/
+def splitInit (f : Faults) : List (List Step) → List Ev × List Ev
+  | [] => ([], [])
+  | u :: us =>
+    let b := u.flatMap beginEvs
+    if b.any (raises f) then ([], uptoFirst (raises f) b)
+    else (b ++ (splitInit f us).1, (splitInit f us).2)
 
-/-- the tear-down of the steps that were STARTED (their begin-callback returned): what the exit
-    stack runs, top first -/
-def stackTeardown (f : Faults) (ini : List Ev) : List Ev := teardown f (ini.filter fun e => !raises f e)
+def startedInit (f : Faults) (steps : List Step) : List Ev := (splitInit f (units steps)).1
+def failedInit (f : Faults) (steps : List Step) : List Ev := (splitInit f (units steps)).2
+
+/-- the clean-up the unit that failed to come up does itself before the exception leaves it: the
+    `finally:` of `PowerControl._init_machine` around a failing `poweron()`; the exit of the
+    lab-host clone when `connect()` fails inside `ConsoleConnector._connect`.  Part of the failing
+    set-up step — no other step sees it. -/
+def ownCleanup (f : Faults) (steps : List Step) : List Ev := teardown f (failedInit f steps)
+
+/-- the tear-down of the units that were STARTED: what the exit stack runs, top first -/
+def stackTeardown (f : Faults) (steps : List Step) : List Ev := teardown f (startedInit f steps)
 
 /-- is the event the exit of a step whose context manager handles exceptions (step table `H`)? -/
 def handlesEv (H : Handles) : Ev → Bool
@@ -109,7 +122,7 @@ def pendingFault (f : Faults) (H : Handles) (evs : List Ev) (p : Option Tag) : O
 /-- the part of the log that belongs to the set-up and the body themselves -/
 def ownTrace (steps : List Step) (f : Faults) (body : List Op) : List Ev :=
   let ini := expectedInit steps f
-  ini ++ (if ini.all (fun e => !raises f e) then expectedBody body else []) ++ ownCleanup f ini
+  ini ++ (if ini.all (fun e => !raises f e) then expectedBody body else []) ++ ownCleanup f steps
 
 /-- the session's OWN exception: the last one raised by the set-up or by the body -/
 def ownExc (steps : List Step) (f : Faults) (body : List Op) : Option Tag :=
@@ -118,7 +131,7 @@ def ownExc (steps : List Step) (f : Faults) (body : List Op) : Option Tag :=
 /-- the tear-down fault that reaches the caller: the last one raised by the tear-down of a started
     step after which no handling step exits cleanly (`C13.pendingFault_eq_some_iff`) -/
 def survivingFault (steps : List Step) (f : Faults) : Option Tag :=
-  pendingFault f (handlesOf steps) (stackTeardown f (expectedInit steps f)) none
+  pendingFault f (handlesOf steps) (stackTeardown f steps) none
 
 /-- the exception that must reach the caller: a tear-down fault unless a step further out handled
     it; else the set-up's / body's own exception — always, whatever the steps handle -/
